@@ -15,11 +15,14 @@
 (* steps BeginUpdate ; FinalWriteout ; Packets(W) ; StopAll ; StartAll.    *)
 (*                                                                         *)
 (* GenSet: "h1" .. "h4" = all histories of exactly that length (both       *)
-(* window flags); "upto2", "upto3" = all histories up to that length.      *)
+(* window flags); "upto2", "upto3" = all histories up to that length;      *)
+(* "h4s" = a seeded tenth of the histories of length four; "restart" = one *)
+(* interface reconfigured forty times in a row (no window traffic).        *)
 (***************************************************************************)
 EXTENDS Reconfig, ReconfigDom, Json
-CONSTANT GenSet
+CONSTANTS GenSet, Seed
 VARIABLES sched, pos, hist, done
+LOCAL INSTANCE SequencesExt
 
 GenCfgs == PlainCfgs
 
@@ -29,12 +32,19 @@ Up(c, w) == [a |-> "U", cfg |-> c, win |-> w]
 Sched(f, w) == [j \in 1..(2 * Len(f)) |-> IF j % 2 = 1 THEN Pk ELSE Up(f[j \div 2], IF w THEN Links ELSE {})]
            \o <<Pk>>
 Hist(n) == {Sched(f, w) : f \in [1..n -> GenCfgs], w \in BOOLEAN}
+\* every tenth history of length four (which tenth depends on the seed)
+Hist4Sample == LET q == SetToSeq([1..4 -> GenCfgs])
+               IN {Sched(q[j], w) : j \in {j \in 1..Len(q) : j % 10 = Seed % 10}, w \in BOOLEAN}
+\* restart stress: e0 is reconfigured (promiscuous mode on / off) forty times in a row
+RestartScheds == {Sched([j \in 1..40 |-> IF j % 2 = 1 THEN C2 ELSE C3], FALSE)}
 Scheds == CASE GenSet = "h1" -> Hist(1)
             [] GenSet = "h2" -> Hist(2)
             [] GenSet = "h3" -> Hist(3)
             [] GenSet = "h4" -> Hist(4)
             [] GenSet = "upto2" -> Hist(1) \cup Hist(2)
             [] GenSet = "upto3" -> Hist(1) \cup Hist(2) \cup Hist(3)
+            [] GenSet = "h4s" -> Hist4Sample
+            [] GenSet = "restart" -> RestartScheds
 
 GenInit == Init /\ sched \in Scheds /\ pos = 1 /\ hist = <<>> /\ done = FALSE
 
